@@ -167,8 +167,13 @@ class Ctx:
         path = os.path.join(self.build, name + ".v")
         with open(path, "w") as f:
             f.write(body)
-        rc, out = sh("ulimit -s unlimited 2>/dev/null; timeout 900 coqc -w -all -Q %s RopeVerif %s" % (COQ, path),
-                     cwd=self.build)
+        cmd = "ulimit -s unlimited 2>/dev/null; timeout 900 coqc -w -all -Q %s RopeVerif %s" % (COQ, path)
+        rc, out = sh(cmd, cwd=self.build)
+        for _ in range(2):          # a transient failure (machine under load, killed process) is retried
+            if rc == 0:
+                break
+            time.sleep(2)
+            rc, out = sh(cmd, cwd=self.build)
         if rc != 0:
             raise RuntimeError("coqc failed on %s:\n%s" % (path, out[-3000:]))
         return out
@@ -195,7 +200,14 @@ class Ctx:
                 idx += 1
             i, p = running.pop(0)
             out, _ = p.communicate()
-            if p.returncode != 0:
+            rc = p.returncode
+            for _ in range(2):      # retry a transient failure sequentially
+                if rc == 0:
+                    break
+                time.sleep(2)
+                rc, out = sh("ulimit -s unlimited 2>/dev/null; timeout 900 coqc -w -all -Q %s RopeVerif %s" % (COQ, paths[i]),
+                             cwd=self.build)
+            if rc != 0:
                 raise RuntimeError("coqc failed on %s:\n%s" % (paths[i], out[-3000:]))
             outs[i] = out
         return outs
